@@ -51,6 +51,10 @@ def child_env(san_dir):
     env["UBSAN_OPTIONS"] = "print_stacktrace=1:halt_on_error=1:exitcode=87"
     env["PYTHONPATH"] = san_dir + ":" + os.environ.get("VERIF_DIR", "/verif")
     env["PSV_SAN_CHILD"] = "1"
+    # Python objects from the system allocator: ASan then sees use-after-free
+    # and double frees of objects (a reference-count slip in the extension),
+    # which pymalloc's arenas would hide
+    env["PYTHONMALLOC"] = "malloc"
     env["PYTHONHASHSEED"] = "0"
     env["PYTHONDONTWRITEBYTECODE"] = "1"
     return env
